@@ -111,6 +111,16 @@ func runHost(specPath string) {
 		}(t)
 	}
 	results := make([]hostResult, 0, len(spec.Calls))
+	if spec.Threads == 1 {
+		// a single-threaded host: every call comes from the same thread, back
+		// to back, with no hand-over in between (per-thread / per-P caches such
+		// as sync.Pool see the same caller again)
+		for _, c := range spec.Calls {
+			out, pan := callExport(c.Input)
+			results = append(results, hostResult{Thread: 0, Output: out, Panic: pan})
+		}
+		spec.Calls = nil
+	}
 	for _, c := range spec.Calls {
 		j := job{in: c.Input, done: make(chan hostResult, 1)}
 		chans[c.Thread%spec.Threads] <- j
